@@ -19,10 +19,11 @@ def load_rules(pid: str):
     return importlib.import_module(f"sa.rules.{pid.lower()}")
 
 
-def analyse(pid: str, root: str, tier: str = "quick"):
-    """Run all armed rules of one property on the tree at `root`; returns (ctx, obligations)."""
+def analyse(pid: str, root: str, tier: str = "quick", repo=None):
+    """Run all armed rules of one property on the tree at `root`; returns (ctx, obligations).  `repo`: an already parsed program
+    model of that same tree (the self-test analyses one scratch tree under several properties)."""
     mod = load_rules(pid)
-    repo = Repo(root)
+    repo = repo if repo is not None else Repo(root)
     ctx = Ctx(repo, pid, tier)
     ctx.analysis_error = None
     try:
